@@ -39,7 +39,7 @@ def shapes_stage(rep, tier, seed):
         rounds = 2 if tier == "quick" else 12
         rng = Rng(seed * 7919 + 5)
         for r in range(rounds):
-            for (name, src, meta) in progs.shapes_family(rng.fork()):
+            for (name, src, meta) in [t for fam in (progs.shapes_family, progs.arith_family) for t in fam(rng.fork())]:
                 st["programs"] += 1
                 run = h.run(src=src, args=["3"], trace=False, timeout=60)
                 io = vm_corr.impl_outcome(run)
